@@ -179,14 +179,16 @@ theorem C11_spans_sorted (h : makeDb toTaxa progs = .ok db) (hn : (pathsOf progs
     rw [hv]; exact sorted_preparedSpans _
 
 /-- **C11 (inverted indexes).** `labels` and `taxa` have strictly sorted keys; `labels[l]` is exactly
-the list of the paths of the programs featuring `l`, in collection order (one entry per label
-occurrence of that name), and is absent when no program features `l`; consequently
+the list of the paths of the programs featuring `l`, in collection order, EACH PATH ONCE (fix F47: the
+parser may return several entries of one name for a program; `dedupAdj` drops the repeats, and the list
+is duplicate-free), and is absent when no program features `l`; consequently
 `p ∈ labels[l] ↔ l is a key of p's record`. Same for `taxa`. -/
 theorem C11_indexes (h : makeDb toTaxa progs = .ok db) (hn : (pathsOf progs).Nodup) :
     StrictSorted (keys db.labels) ∧ StrictSorted (keys db.taxa) ∧
     (∀ l, get? db.labels l =
       if occOf (labelOcc (labelled progs)) l = [] then none
-      else some (occOf (labelOcc (labelled progs)) l)) ∧
+      else some (dedupAdj (occOf (labelOcc (labelled progs)) l))) ∧
+    (∀ l ps, get? db.labels l = some ps → ps.Nodup) ∧
     (∀ t, get? db.taxa t =
       if occOf (taxonOcc (taxaed toTaxa progs)) t = [] then none
       else some (occOf (taxonOcc (taxaed toTaxa progs)) t)) ∧
@@ -207,13 +209,20 @@ theorem C11_indexes (h : makeDb toTaxa progs = .ok db) (hn : (pathsOf progs).Nod
       exact ⟨q, hq, e.1, e.2.symm⟩
     · rintro ⟨q, hq, rfl, rfl⟩
       exact get?_of_mem_nodup hnk (List.mem_map.mpr ⟨q, hq, rfl⟩)
-  refine ⟨?_, ?_, ?_, ?_, ?_, ?_⟩
-  · rw [hlab]; exact (sortKeys_props _ (nodup_keys_collect _)).1
+  refine ⟨?_, ?_, ?_, ?_, ?_, ?_, ?_⟩
+  · rw [hlab]; exact (sortKeys_props _ (nodup_keys_collectNew _)).1
   · rw [htax]; exact (sortKeys_props _ (nodup_keys_collect _)).1
-  · intro l; rw [hlab]; exact index_get? _ l
+  · intro l; rw [hlab]; exact indexNew_get? _ l
+  · intro l ps hps
+    rw [hlab, indexNew_get?] at hps
+    split at hps
+    · cases hps
+    · simp only [Option.some.injEq] at hps
+      rw [← hps]
+      exact nodup_dedupAdj_labelOcc _ l (by rw [keys_labelled]; exact hn)
   · intro t; rw [htax]; exact index_get? _ t
   · intro l p
-    rw [hlab, index_inAt, mem_labelOcc]
+    rw [hlab, indexNew_inAt, mem_labelOcc]
     constructor
     · rintro ⟨e, he, hp, hl⟩
       obtain ⟨q, hq, rfl⟩ := List.mem_map.mp he
@@ -241,7 +250,7 @@ theorem makeDb_wf (h : makeDb toTaxa progs = .ok db) (hn : (pathsOf progs).Nodup
   obtain ⟨himpk, himp⟩ := C11_importations h
   obtain ⟨hexpk, hexpinv, hexps⟩ := C11_exportations h hn
   obtain ⟨hprog, -⟩ := C11_records h hn
-  obtain ⟨-, -, -, -, hli, hti⟩ := C11_indexes h hn
+  obtain ⟨-, -, -, -, -, hli, hti⟩ := C11_indexes h hn
   have hkeys : keys db.programs = pathsOf progs := by
     rw [hprog]; simp [keys, pathsOf, List.map_map, Function.comp_def]
   obtain ⟨himpeq, -, -, -, -⟩ := makeDb_ok h
